@@ -7,6 +7,8 @@
 
 From Servitor Require Import Base Json Object Jtp Client.
 From Servitor.Facts Require Import JtpFacts ClientFacts.
+From Servitor Require Import Webfinger Open.
+From Servitor.Facts Require Import OpenFacts.
 
 (* whenever an object is accepted WITH an id, its JSON was served - after following redirects - by the host named in the id: fetched from it or embedded in a document that came from it; for every world, every fetch order, every cache state *)
 Theorem fetch_unknown_provenance :
@@ -57,3 +59,71 @@ Theorem fetch_unknown_no_id :
   (FUOk o None, c', log) -> obj_id url_parse o = Some None.
 Proof. exact fetch_unknown_no_id_fact. Qed.
 Print Assumptions fetch_unknown_no_id.
+
+(* TYPED INPUT (:open @name, :open url): what pub.FetchUserInput accepts WITH an id was served by the host named in the id - also when a webfinger lookup comes first and leaves its own (tagged) entries in the shared cache: mixed_sound is the invariant of such a cache, the three hygiene hypotheses say that no real URL looks like a tagged key *)
+Theorem fetch_user_input_provenance :
+  forall (W : url -> entry) (is_https : url -> bool) (resolve : url -> bytes -> option url)
+  (cap : nat) (parse_ref : option url -> text -> option url)
+  (url_parse : text -> option url) (host_of : url -> text) (mk_url : bytes -> bytes -> url),
+  (forall (u : url) (v : bytes) (r : url),
+  ~ is_tagged u -> resolve u v = Some r -> ~ is_tagged r) ->
+  (forall (s : option url) (t : text) (r : url), parse_ref s t = Some r -> ~ is_tagged r) ->
+  (forall (t : text) (r : url), url_parse t = Some r -> ~ is_tagged r) ->
+  forall (c : cache) (typed : bytes) (o : obj) (id : url) (c' : cache) (log : list url),
+  mixed_sound W is_https resolve c ->
+  fetch_user_input W is_https resolve cap parse_ref url_parse host_of mk_url c typed =
+  (FUOk o (Some id), c', log) ->
+  served W is_https resolve host_of (host_of id) (JObj o) /\ mixed_sound W is_https resolve c'.
+Proof. exact fetch_user_input_provenance_fact. Qed.
+Print Assumptions fetch_user_input_provenance.
+
+(* the provenance rule over a cache that webfinger lookups have used as well *)
+Theorem fetch_unknown_mixed_provenance :
+  forall (W : url -> entry) (is_https : url -> bool) (resolve : url -> bytes -> option url)
+  (cap : nat) (parse_ref : option url -> text -> option url)
+  (url_parse : text -> option url) (host_of : url -> text),
+  (forall (u : url) (v : bytes) (r : url),
+  ~ is_tagged u -> resolve u v = Some r -> ~ is_tagged r) ->
+  (forall (s : option url) (t : text) (r : url), parse_ref s t = Some r -> ~ is_tagged r) ->
+  (forall (t : text) (r : url), url_parse t = Some r -> ~ is_tagged r) ->
+  forall (c : cache) (input : jv) (source : option url) (o : obj)
+  (id : url) (c' : cache) (log : list url),
+  mixed_sound W is_https resolve c ->
+  source = None \/
+  (exists s : url, source = Some s /\ served W is_https resolve host_of (host_of s) input) ->
+  fetch_unknown W is_https resolve cap parse_ref url_parse host_of c input source =
+  (FUOk o (Some id), c', log) ->
+  served W is_https resolve host_of (host_of id) (JObj o) /\ mixed_sound W is_https resolve c'.
+Proof. exact fetch_unknown_mixed_provenance_fact. Qed.
+Print Assumptions fetch_unknown_mixed_provenance.
+
+(* tagged entries are never read by a document fetch: outcome and requests are those of the run on the untagged part of the cache *)
+Theorem get_mixed :
+  forall (W : url -> entry) (is_https : url -> bool) (resolve : url -> bytes -> option url)
+  (cap : nat),
+  (forall (u : url) (v : bytes) (r : url),
+  ~ is_tagged u -> resolve u v = Some r -> ~ is_tagged r) ->
+  forall (b : nat) (c : cache) (u : url),
+  ~ is_tagged u ->
+  mixed_sound W is_https resolve c ->
+  let
+  '(o, c', log) := get W is_https resolve as_tolerated cap b c u in
+  (exists b' : nat, o = fst (cold W is_https resolve as_tolerated b' u)) /\
+  mixed_sound W is_https resolve c' /\
+  (forall x : url * outcome, In x c' -> In x c \/ ~ is_tagged (fst x)) /\
+  (o, log) =
+  (let
+  '(o2, _, log2) := get W is_https resolve as_tolerated cap b (untagged_part c) u in
+  (o2, log2)).
+Proof. exact get_mixed_fact. Qed.
+Print Assumptions get_mixed.
+
+(* a lookup keeps a mixed cache sound *)
+Theorem resolve_webfinger_mixed :
+  forall (W : url -> entry) (is_https : url -> bool) (resolve : url -> bytes -> option url)
+  (cap : nat) (mk_url : bytes -> bytes -> url) (c : cache) (name : bytes),
+  mixed_sound W is_https resolve c ->
+  mixed_sound W is_https resolve
+  (snd (fst (resolve_webfinger W is_https resolve cap mk_url c name))).
+Proof. exact resolve_webfinger_mixed_fact. Qed.
+Print Assumptions resolve_webfinger_mixed.
